@@ -38,6 +38,10 @@ class LivePool:
         self.cores = pool["cores"]
         self.log = []
         self.incarnation = 0
+        self.hook = None  # hook(phase, idx, line) around every request of a *live* client (not during log replay)
+        self.lost_reply_at = None  # index of the live request whose answer never arrives (connection drops after the server processed it)
+        self.fault_at = None  # index of the live request at which the connection breaks (ConnectionResetError in the client)
+        self.req_count = 0
         self.names = {}  # tid -> name (this incarnation)
         self.history = []  # (incarnation, tid, name) for every accepted task ever
         self._start()
@@ -140,13 +144,31 @@ class Conn:
         self.read_pos = 0
         loop.run_quiescent()
 
-    def send_line(self, line):
+    def send_line(self, line, live=False):
+        pool = self.pool
+        if live:
+            idx = pool.req_count
+            pool.req_count += 1
+            if pool.hook:
+                pool.hook("before", idx, line)
+            if pool.fault_at == idx:
+                raise ConnectionResetError(104, "Connection reset by peer")
+        self._send(line)
+        if live and pool.lost_reply_at == idx:
+            self.read_pos = len(self.writer.lines())  # whatever the server answered is lost
+            self.dead = True
+        if live and pool.hook:
+            pool.hook("after", idx, line)
+
+    def _send(self, line):
         self.sent.append(line)
         loop = self.pool.world.loop
         loop.do(self.reader.feed_data, (line.rstrip("\n") + "\n").encode("utf-8"))
         loop.run_quiescent()
 
     def recv_line(self):
+        if getattr(self, "dead", False):
+            return ""
         lines = self.writer.lines()
         if self.read_pos < len(lines):
             self.read_pos += 1
@@ -189,7 +211,7 @@ class FakeSocket:
             def flush(self_inner):
                 data, self_inner.buf = self_inner.buf, ""
                 for line in data.splitlines():
-                    conn.send_line(line)
+                    conn.send_line(line, live=True)
 
             def close(self_inner):
                 pass
